@@ -672,13 +672,24 @@ impl Ranking {
             }
             let fchars: BTreeSet<char> = with_lang(lang, |l| gen::tok_record(l, f).chars.iter().cloned().collect());
             let alpha: Vec<char> = alpha_all.iter().cloned().filter(|c| !fchars.contains(c) && !f.contains(*c)).collect();
-            let suffix = gen::rand_word(&mut cx.rng, &alpha, 2, 6);
+            // "content word f + suffix": the suffix is a run of consonants, or - one time in three - an ending of the kind the
+            // language's stemmer strips (plural / case endings, single letters): "ifs", "nache", "нады"
+            let suffix = if cx.rng.chance(1, 3) {
+                let mut ends: Vec<String> = gen::suffixes(lang).iter().map(|x| x.to_string()).collect();
+                ends.extend(["s", "e", "n", "es", "en", "st", "ns", "y"].iter().map(|x| x.to_string()));
+                if lang == "ru" {
+                    ends = vec!["ы".into(), "и".into(), "а".into(), "ов".into(), "ами".into(), "ой".into()];
+                }
+                cx.count("content words made of a function word and an inflectional ending");
+                cx.rng.pick(&ends).clone()
+            } else {
+                gen::rand_word(&mut cx.rng, &alpha, 2, 6)
+            };
             let content = format!("{}{}", f, suffix);
-            let plain = with_lang(lang, |l| {
-                let t = gen::tok_record(l, &content);
-                t.words.len() == 1 && !t.words[0].is_function()
-            });
-            if !plain {
+            // what a content word is, is decided by the frozen tables, never by the build under test: one word, not listed
+            let one_word = with_lang(lang, |l| gen::tok_record(l, &content).words.len() == 1);
+            let listed_all = crate::oracle::listed_function_words(lang);
+            if !one_word || listed_all.contains(&crate::oracle::norm_word(lang, &content)) || crate::oracle::norm_word(lang, &content) == crate::oracle::norm_word(lang, f) {
                 cx.count("content word rejected");
                 continue;
             }
@@ -748,7 +759,9 @@ impl Ranking {
         }
         let common: String = if long_prefix { format!("{} ", gen::rand_word(&mut cx.rng, &gen::lower_alphabet(lang), 20, 40)) } else { String::new() };
         let mk = |rng: &mut Rng, i: usize| -> Rec {
-            let t = format!("{}{}{}{}", common, rng.pick(&words), if rng.chance(1, 2) { " " } else { "" }, if rng.chance(1, 2) { *rng.pick(&words) } else { "" });
+            // one title in six starts with characters that belong to no word (they count in the code-point order of the title)
+            let lead = if rng.chance(1, 6) { *rng.pick(&[" ", "'", "(", "- ", "\u{bf}", "\"", "#", "\u{2026}", "  "]) } else { "" };
+            let t = format!("{}{}{}{}{}", lead, common, rng.pick(&words), if rng.chance(1, 2) { " " } else { "" }, if rng.chance(1, 2) { *rng.pick(&words) } else { "" });
             (i, t, (if distinct { i * 3 + rng.below(3) } else { rng.below(3) }) * rating_scale + rating_offset)
         };
         let mut recs: Vec<Rec> = (0..n).map(|i| mk(&mut cx.rng, i)).collect();
